@@ -149,6 +149,8 @@ package scanner
 //@   maypanic
 //@   modifies s.step
 //@   ensures panics <==> c != '"'
+//@   ensures panics ==> typeis(pv, errors.DocumentError)
+//@   ensures normal ==> result == scanBeginLiteral && s.step == stateInString
 //@ func stateBeginKeyOrEmpty(s, c)
 //@   props C13
 //@   requires s != nil && s.stack != nil && s.prevContextsStack != nil && 1 <= s.index && s.index <= len(s.data)
@@ -157,6 +159,7 @@ package scanner
 //@   ensures normal && s.annotation == annotationNone ==> s.allowAnnotation
 //@   ensures normal && s.annotation != annotationNone ==> s.allowAnnotation == old(s.allowAnnotation)
 //@   ensures normal && c != '}' ==> len(s.finds) == old(len(s.finds)) + 1 && s.finds[old(len(s.finds))] == lexeme.ObjectKeyBegin
+//@   ensures normal && c == '}' ==> len(s.finds) == old(len(s.finds)) + 1 && s.finds[old(len(s.finds))] == lexeme.ObjectEnd
 
 // ---- C13/C06: where a value may start.  Line ends and blanks before a value are
 // transparent (a line end is reported), `/` opens an annotation, and the first byte
@@ -621,3 +624,47 @@ package scanner
 //@   ensures normal && c == ']' ==> result == scanContinue && len(s.finds) == old(len(s.finds)) + 1 && s.finds[old(len(s.finds))] == lexeme.ArrayEnd
 //@   ensures normal && c != ']' && s.annotation == annotationNone && old(len(s.prevContextsStack.vals)) == len(s.prevContextsStack.vals) ==> s.context.ArrayHasItem
 //@   ensures panics ==> typeis(pv, errors.DocumentError) || old(len(s.prevContextsStack.vals)) == 0
+
+// ---- C13/C06: where an object key may start.  Line ends (reported) and blanks are
+// transparent; `@` starts a key shortcut (never inside an annotation); in the schema
+// body a key is a string, in an annotation object it may be bare and `}` may follow a
+// trailing comma; an annotation may follow a comma on the same line only ----
+//@ func beginKeyShortcut(s)
+//@   props C03 C13
+//@   requires s != nil && 1 <= s.index && s.index <= len(s.data)
+//@   maypanic
+//@   modifies s.step, s.finds, s.finds[*]
+//@   ensures panics <==> s.annotation != annotationNone
+//@   ensures panics ==> typeis(pv, errors.DocumentError)
+//@   ensures normal ==> result == scanContinue && s.step == stateKeyShortcut && len(s.finds) == old(len(s.finds)) + 1 && s.finds[old(len(s.finds))] == lexeme.KeyShortcutBegin
+//@ func stateFoundObjectKeyBeginAfterNewLine(s, c)
+//@   props C13 C06
+//@   requires s != nil && s.returnToStep != nil && s.stack != nil && s.prevContextsStack != nil && 1 <= s.index && s.index <= len(s.data)
+//@   maypanic
+//@   modifies s.step, s.boundary, s.finds, s.finds[*], s.returnToStep.vals, s.returnToStep.vals[*], s.context.Type, s.context.ArrayHasItem, s.prevContextsStack.vals
+//@   ensures normal && isNewLine(c) ==> result == scanContinue && len(s.finds) == old(len(s.finds)) + 1 && s.finds[old(len(s.finds))] == lexeme.NewLine && s.step == old(s.step)
+//@   ensures normal && isBlank(c) && !isNewLine(c) ==> result == scanContinue && len(s.finds) == old(len(s.finds)) && s.step == old(s.step)
+//@   ensures normal && c == '@' ==> result == scanContinue && s.step == stateKeyShortcut && s.finds[old(len(s.finds))] == lexeme.KeyShortcutBegin
+//@   ensures c == '@' && s.annotation != annotationNone ==> panics
+//@   ensures s.annotation == annotationNone && !isBlank(c) && c != '#' && c != '@' && c != '"' ==> panics && typeis(pv, errors.DocumentError)
+//@   ensures normal && s.annotation == annotationNone && c == '"' ==> result == scanBeginLiteral && s.step == stateInString && len(s.finds) == old(len(s.finds)) + 1 && s.finds[old(len(s.finds))] == lexeme.ObjectKeyBegin
+//@ func stateFoundObjectKeyBegin(s, c)
+//@   props C13 C06
+//@   requires s != nil && s.returnToStep != nil && s.stack != nil && s.prevContextsStack != nil && 1 <= s.index && s.index <= len(s.data)
+//@   maypanic
+//@   modifies s.step, s.boundary, s.allowAnnotation, s.finds, s.finds[*], s.returnToStep.vals, s.returnToStep.vals[*], s.context.Type, s.context.ArrayHasItem, s.prevContextsStack.vals
+//@   ensures normal && isNewLine(c) ==> result == scanContinue && len(s.finds) == old(len(s.finds)) + 1 && s.finds[old(len(s.finds))] == lexeme.NewLine && s.step == stateFoundObjectKeyBeginAfterNewLine
+//@           && (s.annotation == annotationNone ==> s.allowAnnotation)
+//@   ensures normal && isBlank(c) && !isNewLine(c) ==> result == scanContinue && len(s.finds) == old(len(s.finds)) && s.step == old(s.step)
+//@   ensures normal && c == '@' ==> result == scanContinue && s.step == stateKeyShortcut
+//@   ensures s.annotation == annotationNone && !isBlank(c) && c != '/' && c != '#' && c != '@' && c != '"' ==> panics && typeis(pv, errors.DocumentError)
+//@   ensures normal && s.annotation == annotationNone && c == '"' ==> result == scanBeginLiteral && s.step == stateInString && len(s.finds) == old(len(s.finds)) + 1 && s.finds[old(len(s.finds))] == lexeme.ObjectKeyBegin
+//@ func stateFoundObjectKeyBeginOrEmpty(s, c)
+//@   props C13 C06
+//@   requires s != nil && s.returnToStep != nil && s.stack != nil && s.prevContextsStack != nil && 1 <= s.index && s.index <= len(s.data)
+//@   maypanic
+//@   modifies s.step, s.boundary, s.allowAnnotation, s.finds, s.finds[*], s.returnToStep.vals, s.returnToStep.vals[*], s.context.Type, s.context.ArrayHasItem, s.prevContextsStack.vals
+//@   ensures normal && isNewLine(c) ==> result == scanContinue && len(s.finds) == old(len(s.finds)) + 1 && s.finds[old(len(s.finds))] == lexeme.NewLine && s.step == old(s.step)
+//@   ensures normal && isBlank(c) && !isNewLine(c) ==> result == scanContinue && len(s.finds) == old(len(s.finds)) && s.step == old(s.step)
+//@   ensures normal && c == '@' ==> result == scanContinue && s.step == stateKeyShortcut
+//@   ensures normal && c == '}' ==> len(s.finds) == old(len(s.finds)) + 1 && s.finds[old(len(s.finds))] == lexeme.ObjectEnd
